@@ -234,3 +234,17 @@ for _p in ("C07", "C08"):
 PROPS["C10"]["runs"] = PROPS["C10"]["runs"] + [
     {"entry": PAN, "quick": {"N": "1", "G": "1", "srcmax": "2", "cut": "1"}, "thorough": {"N": "2", "G": "1", "srcmax": "1", "cut": "1"}, "extra": {"maxpaths": 5000000}, "covers": ["resumed after cut"]}]
 PROPS["C07"]["explanation"] += " PAN-OS: every emitted command's xpath must lie below the targeted vsys."
+
+PROPS["C16"] = {
+    "explanation": "Twin-run harnesses under the executor's map iteration schedules (insertion order, reversed, rotated by one): bounded symbolic execution (gosx) of the real cisco GetChanges (ASA: findGroupOnDevice, equalizedGroups, deleteUnused, diffConfig), nsx.diffConfig (findGroupOnDevice, adaptGroup) and linux.parseIPTables/diffIPTables on inputs whose solver-chosen content creates ties (several identical left-over object-groups / NSX groups on the device, rules differing in several options); the outputs of the three runs must be identical. Native replay runs the real code 200 times under Go's random map order.",
+    "bounds": {"quick": "ASA: n,m<=1 ACL lines referencing up to 2 groups, up to 3 device groups with 1..2 members incl. left-over ones; NSX: n,m<=1 rules, up to 3 device groups; Linux: one rule per side (source, negation, protocol, jump)",
+               "thorough": "ASA n,m<=2; NSX n,m<=2; Linux with dport and state"},
+    "outside": "schedules other than the three listed for maps with more than 2 entries, IOS and PAN-OS planning (no order-sensitive map iteration found by reading; PAN-OS iterates slices), MergeSpoc, warnings and exit status, sources of nondeterminism other than map order",
+    "selftest": "asa_acl|nsx",
+    "runs": [
+        {"entry": M + "/pkg/asa.VerifDeterminismASA", "quick": {"N": "1"}, "thorough": {"N": "2"}, "extra": {"maxpaths": 3000000}},
+        {"entry": M + "/pkg/nsx.VerifDeterminismNSX", "quick": {"N": "1"}, "thorough": {"N": "2"}, "extra": {"maxpaths": 3000000}},
+        {"entry": M + "/pkg/linux.VerifDeterminismLinux", "quick": {"light": "1"}, "thorough": {"light": "0"}, "extra": {"maxpaths": 3000000},
+         "covers": ["rules differ in two or more options"]},
+    ],
+}
